@@ -6,7 +6,9 @@ import (
 	"fmt"
 	"sort"
 	"strings"
+	"sync"
 	"testing"
+	"time"
 
 	"github.com/spikeekips/mitum/zzverif/vlib"
 	"github.com/spikeekips/mitum/zzverif/vsched"
@@ -296,6 +298,28 @@ func c32new(kind string) LockedMap[int, int] {
 	panic(kind)
 }
 
+// c32nativeMu is a REAL mutex (this file is not instrumented): under the controlled scheduler only one thread
+// runs at a time so it is never contended and adds no scheduling point.
+var c32nativeMu sync.Mutex
+
+// c32raceScenario builds the thread bodies of one scenario for the free-running -race pass.
+func c32raceRoots(s c32scenario) []func() {
+	l := c32new(s.kind)
+	for k, v := range s.init {
+		l.SetValue(k, v)
+	}
+	var roots []func()
+	for _, p := range s.progs {
+		p := p
+		roots = append(roots, func() {
+			for _, o := range p {
+				_ = c32run(l, o)
+			}
+		})
+	}
+	return roots
+}
+
 type c32scenario struct {
 	kind  string
 	init  map[int]int
@@ -342,11 +366,15 @@ func c32explore(r *vlib.Run, s c32scenario, bound int) {
 			ti, p := ti, p
 			roots = append(roots, func() {
 				for _, o := range p {
+					c32nativeMu.Lock() // uncontended under the scheduler; orders the log in the free-running -race pass
 					clock++
 					c := clock
+					c32nativeMu.Unlock()
 					res := c32run(l, o)
+					c32nativeMu.Lock()
 					clock++
 					evs = append(evs, c32event{op: o, thread: ti, call: c, ret: clock, res: res})
+					c32nativeMu.Unlock()
 				}
 			})
 		}
@@ -736,4 +764,32 @@ func c32locked(r *vlib.Run, bound int) {
 			}
 		}
 	}
+}
+
+// TestVerifC32Race: free-running pass of scenario bodies under `go test -race` (thorough tier only); checks the
+// assumption that lock/atomic operations are the only interaction points of util/lock.go. Never a verdict.
+func TestVerifC32Race(t *testing.T) {
+	r := vlib.Start("C32")
+	defer r.Finish()
+	ops := []c32op{
+		{"SetValue", 0, 1}, {"SetValue", 2, 2}, {"SetValue", 1, 3}, {"Value", 0, 0}, {"Exists", 0, 0}, {"RemoveValue", 0, 0},
+		{"Set", 0, 0}, {"GetOrCreate", 0, 4}, {"SetOrRemove", 0, 0}, {"Remove", 0, 0},
+		{"Traverse", 0, 0}, {"Len", 0, 0}, {"Map", 0, 0}, {"Empty", 0, 0}, {"Close", 0, 0},
+	}
+	n := 0
+	for _, kind := range []string{"single", "sharded", "deep"} {
+		for a := range ops {
+			for b := range ops {
+				for rep := 0; rep < 6; rep++ {
+					c := ops[(a+b+rep)%len(ops)]
+					sc := c32scenario{kind, map[int]int{0: 9}, [][]c32op{{ops[a], c}, {ops[b], ops[a]}, {c, ops[b]}}}
+					if !vsched.RunNative(20*time.Second, c32raceRoots(sc)...) {
+						t.Fatalf("free-running scenario %s did not finish", sc.id())
+					}
+					n++
+				}
+			}
+		}
+	}
+	r.Add("race_pass_free_running_executions", int64(n))
 }
